@@ -743,9 +743,14 @@ def evaluate_smt_formula(
             )
         )
 
+    try:
+        # Ground (sub-)expressions are evaluated eagerly during the translation.
+        translation_result = evaluate_z3_expression(z3_formula)
+    except DomainError:
+        return Some(ThreeValuedTruth.false())
+
     return (
-        evaluate_z3_expression(z3_formula)
-        .map(process_translation)
+        translation_result.map(process_translation)
         .lash(compose(fallback, Success))
         .unwrap()
     )
